@@ -330,6 +330,9 @@ class BaseAsyncNetworkServerImpl(AbstractAsyncNetworkServer, Generic[_T_LowLevel
 
             if self.__servers_factory_scope is not None:
                 self.__servers_factory_scope.cancel()
+                # Wait for the cancelled activation to release the listeners it was creating.
+                async with self.__server_activation_lock:
+                    pass
             self.__servers_factory_cb = None
 
             exit_stack.callback(self.__servers.clear)
